@@ -73,7 +73,7 @@ ResetTo(c) ==
       rc == StartOf(f["C"])
       rs == StartOf(f["S"])
   IN /\ ep' = [e \in E |-> IF e = "C" THEN rc.s ELSE rs.s]
-     /\ pend' = [e \in E |-> IF e = "C" THEN Labels(rc.out) ELSE <<>>]
+     /\ pend' = [e \in E |-> IF e = "C" /\ Ev.model # "C" THEN Labels(rc.out) ELSE <<>>]
      /\ sent' = [e \in E |-> IF e = "C" THEN Msgs(rc.out) ELSE <<>>]
      /\ kh' = [e \in E |-> ""]
 
@@ -97,24 +97,29 @@ TReset ==
 \*   ev.lo, ev.hi  the piece [lo, hi) of the body it carries, in sixths (0, 6 = the whole message)
 \*   ev.rw         rewrite applied by the proxy ("" = none)
 \*   ev.inj        "" or the kind of record the adversary built itself
+\* (oms = -1: a protected record the proxy cannot look into - the Finished of the sender, whatever its
+\*  message_seq. disp = "model": the receiver is an endpoint without hooks (the reference implementation); the
+\*  event is the proxy's delivery of the datagram and the specification decides what the endpoint does with it.)
 Candidates(e) ==
   IF Ev.inj # ""
   THEN {[Msg(Ev.t, Ev.ms) EXCEPT !.bad = TRUE]}
-  ELSE LET S == {i \in 1..Len(sent[Peer(e)]) : sent[Peer(e)][i].t = Ev.t /\ sent[Peer(e)][i].ms = Ev.oms}
+  ELSE LET S == {i \in 1..Len(sent[Peer(e)]) :
+                   sent[Peer(e)][i].t = Ev.t /\ (Ev.oms = -1 \/ sent[Peer(e)][i].ms = Ev.oms)}
        IN {[(IF Ev.rw # "" THEN Rewrite(Ev.rw, sent[Peer(e)][i]) ELSE sent[Peer(e)][i])
-              EXCEPT !.ms = Ev.ms, !.lo = Ev.lo, !.hi = Ev.hi] : i \in S}
+              EXCEPT !.ms = IF Ev.oms = -1 THEN sent[Peer(e)][i].ms ELSE Ev.ms, !.lo = Ev.lo, !.hi = Ev.hi,
+                     !.same = Ev.same] : i \in S}
 
 THs ==
   /\ Is("hs")
   /\ LET e == Inst IN
      /\ Rule("MustResend", pend[e] = <<>>)
      /\ \E m \in Candidates(e) :
-          /\ Rule("Sequencing", DispOf(ep[e], m) = Ev.disp)
+          /\ Rule("Sequencing", Ev.disp = "model" \/ DispOf(ep[e], m) = Ev.disp)
           /\ Rule("Reassembly", (Ev.disp = "acc" /\ DispOf(ep[e], m) = "acc")
                                    => FragStep(Resynced(ep[e], m), m).bad = Ev.bad)
           /\ \E r \in RecvResults(ep[e], m) :
                /\ ep' = [ep EXCEPT ![e] = r.s]
-               /\ pend' = [pend EXCEPT ![e] = IF "MustResend" \in Props \/ "FlightContent" \in Props
+               /\ pend' = [pend EXCEPT ![e] = IF Ev.disp # "model" /\ ("MustResend" \in Props \/ "FlightContent" \in Props)
                                                THEN Labels(r.out) ELSE <<>>]
                /\ sent' = [sent EXCEPT ![e] = @ \o Msgs(r.out)]
   /\ l' = l + 1
@@ -157,8 +162,8 @@ TConnected ==
      /\ Rule("ConnectedOnlyWhenSpecConnects", ep[e].st = "Connected")
      /\ Rule("KeyAgreement", /\ Ev.kh = kh[e]
                              /\ (ep[Peer(e)].st = "Connected" /\ ep[e].st = "Connected")
-                                   => /\ (kh[Peer(e)] = Ev.kh) = (ep[e].keys = ep[Peer(e)].keys)
-                                      /\ kh[Peer(e)] = Ev.kh)
+                                   => /\ (kh[Peer(e)] = "" \/ (kh[Peer(e)] = Ev.kh) = (ep[e].keys = ep[Peer(e)].keys))
+                                      /\ (kh[Peer(e)] = "" \/ kh[Peer(e)] = Ev.kh))
      /\ Rule("Auth", e = "C" => AuthOf(ep[e]))
      /\ Rule("AuthServer", e = "S" => AuthOf(ep[e]))
   /\ l' = l + 1
